@@ -324,8 +324,7 @@ func TestVerif_C12(t *testing.T) {
 
 // c12CloseAfterLastFrame: 1-6 valid frames and then a normal close, against a handler that needs
 // a few milliseconds per message (and, like the library's own handlers, stops at the first of
-// "context done" / "next message"). The relay reads the close frame only after it has handed
-// over every frame before it, so the handler's log must hold them all, in order.
+// "context done" / "next message"). The handler's log must be a prefix of what was sent.
 func c12CloseAfterLastFrame(rep *vk.Report, i int) {
 	r := vk.RNG("C12/close", i)
 	var mu sync.Mutex
@@ -388,9 +387,17 @@ func c12CloseAfterLastFrame(rep *vk.Report, i int) {
 	rep.Count("connections_closed_right_after_the_last_frame", 1)
 	mu.Lock()
 	defer mu.Unlock()
-	if strings.Join(got, ",") != strings.Join(sent, ",") {
-		rep.Violation("handler/lost-before-close", fmt.Sprintf("the client sent %d valid frames and then closed normally; the handler (%v per message) received %d of them", len(sent), work, len(got)),
+	// What the handler has is a prefix of what was sent, in order: that much is stated. Whether
+	// frames still on their way to the handler when the close frame arrives must be handed
+	// over is not (the statement speaks about the frames of a session, not about its end; the
+	// pinned code hands them over because it reads one frame at a time): counted, not judged.
+	if len(got) > len(sent) || strings.Join(got, ",") != strings.Join(sent[:len(got)], ",") {
+		rep.Violation("handler/not-a-prefix-before-close", fmt.Sprintf("the client sent %d valid frames and then closed normally; what the handler received is not a prefix of them", len(sent)),
 			map[string]any{"sent": sent, "handler_received": got})
+		return
+	}
+	if len(got) < len(sent) {
+		rep.Count("not_claimed/connections_whose_last_frames_were_not_handed_over_before_the_close", 1)
 	}
 }
 
